@@ -98,7 +98,24 @@ class FakeWriter:
 
     def write(self, data):
         if not self.closed:
-            self._on_bytes(bytes(data))
+            snap = bytes(data)
+            if not isinstance(data, bytes):
+                # (a real transport keeps what it could not send at once without copying it)
+                self.recheck_tx()
+                held = self.__dict__.setdefault('tx_held', [])
+                held.append((data, snap))
+                del held[:-8]
+            self._on_bytes(snap)
+
+    def recheck_tx(self):
+        for obj, snap in self.__dict__.get('tx_held', ()):
+            try:
+                same = bytes(obj) == snap
+            except (ValueError, TypeError):
+                same = True
+            cb = getattr(self, 'on_tx_mutated', None)
+            if not same and cb is not None:
+                cb(snap, bytes(obj))
 
     def close(self):
         # like a real transport: close() -> connection_lost(None) -> reader.feed_eof(), one iteration later
@@ -150,6 +167,7 @@ class StreamPeer:
         self.reader = asyncio.StreamReader(limit=2 ** 26, loop=asyncio.get_running_loop())
         reader = self.reader
         self.writer = FakeWriter(self._on_bytes, lambda: None if _eof_fed(reader) or reader.exception() else reader.feed_eof())
+        self.writer.on_tx_mutated = getattr(self, 'on_tx_mutated', None)
         self._buf = b''
         return self.reader, self.writer
 
